@@ -24,6 +24,29 @@ MIN_OBLIGATIONS = 18
 def run(repo, chk):
     _run(repo, chk)
     rule_trust_order(repo, chk)
+    rule_peer_address(repo, chk)
+
+
+def rule_peer_address(repo, chk):
+    """The session fingerprint and the gateway test read request.remote.ip: it must be the peer's address for every address family that has one."""
+    from .common import WEB_WRAPPERS
+    chk.rule('C20.g', 'Request takes the address of the peer from the first two items of any tuple-shaped peer name (AF_INET: 2 items, AF_INET6: 4); only a peer name '
+                      'that is not a tuple (AF_UNIX) leaves the address empty')
+    f = repo.func(WEB_WRAPPERS, 'Request.__init__')
+    chk.touch(f)
+    names = {src(n.targets[0]) for n in walk_no_defs(f.node) if isinstance(n, ast.Assign) and len(n.targets) == 1 and isinstance(n.targets[0], ast.Name)
+             and isinstance(n.value, ast.Call) and (call_name(n.value) or '').endswith('.getpeername')}
+    def is_peer(e):
+        return (isinstance(e, ast.Name) and e.id in names) or (isinstance(e, ast.Call) and (call_name(e) or '').endswith('.getpeername'))
+    need(names or any(is_peer(c) for c in calls_in(f.node)), 'C20.g: Request.__init__ does not ask the socket for its peer')
+    exact = [n for n in walk_no_defs(f.node) if isinstance(n, ast.Assign) and isinstance(n.targets[0], (ast.Tuple, ast.List)) and is_peer(n.value)
+             and not any(isinstance(t, ast.Starred) for t in n.targets[0].elts)]
+    taken = [n for n in walk_no_defs(f.node) if isinstance(n, ast.Assign) and any(isinstance(w, ast.Subscript) and is_peer(w.value) for w in ast.walk(n.value))] + \
+            [n for n in walk_no_defs(f.node) if isinstance(n, ast.Assign) and isinstance(n.targets[0], (ast.Tuple, ast.List)) and is_peer(n.value)
+             and any(isinstance(t, ast.Starred) for t in n.targets[0].elts)]
+    chk.ob('g', f.ref, 'the peer address is taken from a peer name of any length (an unpacking into exactly two names fails for the 4 items of an IPv6 peer, which then '
+                       'has no address: every IPv6 client shares one session fingerprint)', not exact and bool(taken), loc(f, (exact or taken or [f.node])[0]),
+           detail='; '.join(src(n) for n in exact + taken)[:160], discr='peer-address-any-family')
 
 
 def _run(repo, chk):
@@ -356,8 +379,20 @@ def rule_e(repo, chk):
     uses = [n for n in g.nodes if n.kind in ('stmt', 'test') and n.ast is not None and any(
         call_name(c) in getters and c.args and isinstance(c.args[0], ast.Constant) and str(c.args[0].value).lower() == 'x-forwarded-host' for c in calls_in(n.ast))]
     need(uses, 'C20.e: X-Forwarded-Host is never read')
+    # what is looked up in the gateway list: the address of the transport peer.  (request.remote is replaced by what a header says once tools.ReverseProxy has seen
+    # the request object, and the HTTP layer dispatches a request object again when another message arrives before the response is out.)
+    members = [n for n in g.nodes if n.kind == 'test' and isinstance(n.ast, ast.Compare) and len(n.ast.ops) == 1 and isinstance(n.ast.ops[0], (ast.In, ast.NotIn))
+               and src(n.ast.comparators[0]) == 'self.trusted_gateways']
+    # (no look-up at all: the reads of X-Forwarded-Host are then unguarded, which is reported below)
+    peers = set()
+    for n in members:
+        left = n.ast.left
+        peers.add(src(left))
+        okp, why = _transport_peer(repo, h, n, left, req)
+        chk.ob('e', h.ref, 'the address looked up in the gateway list is the address of the transport peer (the socket\'s peer name), not a field of the request that request '
+                           'handlers rewrite from headers', okp, loc(h, n.ast), detail=why, discr='trust-reads-transport-peer')
     trusted = pat.test_edge(lambda tt, pol: pat.fact_matches(pat.compare_fact(tt, pol), 'self.trusted_gateways', ('is', '=='), 'None') or
-                            pat.fact_matches(pat.compare_fact(tt, pol), f'{req}.remote.ip', ('in',), 'self.trusted_gateways'))
+                            any(pat.fact_matches(pat.compare_fact(tt, pol), p_, ('in',), 'self.trusted_gateways') for p_ in peers))
     for n in uses:
         q = pat.guarded_by(g, n, trusted)
         chk.ob('e', h.ref, 'X-Forwarded-Host is read only for requests from a trusted gateway (or when no gateway list is configured)', q is None, loc(h, n.ast),
@@ -384,6 +419,56 @@ def rule_e(repo, chk):
             continue
         q = pat.guarded_by(g, n, trusted)
         chk.ob('e', h.ref, 'the routing domain is overridden only under the gateway test', q is None, loc(h, n.ast), discr='override-guard')
+
+
+def _transport_peer(repo, h, node, e, req, depth=0):
+    """(ok, why): expression *e* (at *node* of *h*) is the address of the socket's peer."""
+    if isinstance(e, ast.Constant) and e.value is None:
+        return True, 'None'
+    if isinstance(e, ast.IfExp):
+        a, wa = _transport_peer(repo, h, node, e.body, req, depth)
+        b, wb = _transport_peer(repo, h, node, e.orelse, req, depth)
+        return a and b, f'{wa} | {wb}'
+    if isinstance(e, ast.Subscript):
+        return _transport_peer(repo, h, node, e.value, req, depth)
+    if isinstance(e, ast.Call) and (call_name(e) or '').endswith('.getpeername'):
+        return True, src(e)
+    if isinstance(e, ast.Name) and depth < 4:
+        g = h.cfg()
+        defs = Q.reaching_defs(g, node, e.id)
+        if not defs:
+            return False, f'`{e.id}` is never bound'
+        whys = []
+        for d in defs:
+            if not (d.kind == 'stmt' and isinstance(d.ast, ast.Assign)):
+                return False, f'`{e.id}` bound by `{d.text[:40]}`'
+            ok, why = _transport_peer(repo, h, d, d.ast.value, req, depth + 1)
+            whys.append(why)
+            if not ok:
+                return False, why
+        return True, ' | '.join(whys)
+    if isinstance(e, ast.Call) and isinstance(e.func, ast.Attribute) and src(e.func.value) == 'self' and h.cls is not None and depth < 4:
+        m = h.cls.lookup(e.func.attr)
+        if m is None:
+            return False, f'`{src(e)}`: unknown method'
+        gm = m.cfg()
+        whys = []
+        for rn in gm.nodes:
+            if rn.kind == 'stmt' and isinstance(rn.ast, ast.Return):
+                v = rn.ast.value
+                if v is not None and src(v).endswith('.remote.ip'):
+                    # the fall-back for a request that has no socket (built by hand): only when there is no socket to ask
+                    q = pat.guarded_by(gm, rn, pat.test_edge(lambda tt, pol: (lambda fc: fc is not None and fc[1] in ('is', '==') and fc[2] == 'None')(pat.compare_fact(tt, pol))))
+                    if q is not None:
+                        return False, f'`{src(v)}` returned although the request has a socket'
+                    whys.append('remote.ip without a socket')
+                    continue
+                ok, why = _transport_peer(repo, m, rn, v if v is not None else ast.Constant(value=None), req, depth + 1)
+                whys.append(why)
+                if not ok:
+                    return False, f'{m.name}: {why}'
+        return bool(whys), f'{m.name}: ' + ' | '.join(whys)
+    return False, f'`{src(e)[:60]}`'
 
 
 def rule_trust_order(repo, chk):
